@@ -313,11 +313,18 @@ func c12Bytes(c *Ctx) {
 		c.Case(int64(b), func(k *K) {
 			_, ok := refComplement(byte(b))
 			k.Input("byte", b)
-			for pos := -1; pos <= len(valid); pos++ {
+			for pos := -4; pos <= len(valid); pos++ {
 				var s []byte
-				if pos < 0 {
+				switch {
+				case pos == -4: // runs of the byte, alone and around valid bases
+					s = bytes.Repeat([]byte{byte(b)}, 4)
+				case pos == -3:
+					s = append(bytes.Repeat([]byte{byte(b)}, 2), valid...)
+				case pos == -2:
+					s = append(append([]byte{}, valid...), bytes.Repeat([]byte{byte(b)}, 8)...)
+				case pos < 0:
 					s = []byte{byte(b)}
-				} else {
+				default:
 					s = append(append(append([]byte{}, valid[:pos]...), byte(b)), valid[pos:]...)
 				}
 				p1 := expectPanic(func() { sequtil.ReverseComplement(nil, s) })
